@@ -168,12 +168,27 @@ FEATURES = {
         "    @staticmethod\n    def sm(): ...\n    @classmethod\n    def cm(cls): ...\n    class Nested:\n        nv = 1\n"
     ),
     "attributes": 'va: int = 1\n"""va doc"""\nvb = [1, 2]\nvc: "str"\n__all__ = ["va", "vb"]\n',
-    "imports": "import os\nimport os.path as osp\nfrom typing import Any as AnyT, TYPE_CHECKING\nfrom collections import *\nif TYPE_CHECKING:\n    from decimal import Decimal\n",
+    "imports": "import os\nimport os.path as osp\nfrom typing import Any as AnyT, TYPE_CHECKING\nfrom collections import *\nif TYPE_CHECKING:\n    from decimal import Decimal\nfrom typing import (\n    Dict,\n    List as L2,\n)\nimport json, \\\n    re\n",
     "overloads": "from typing import overload\n@overload\ndef ov(a: int) -> int: ...\n@overload\ndef ov(a: str) -> str: ...\ndef ov(a): return a\n",
     "dataclass": 'import dataclasses\n@dataclasses.dataclass\nclass DC:\n    """DC doc."""\n    x: int\n    y: str = "s"\n    z: list = dataclasses.field(default_factory=list)\n',
     "lambda": "lam = lambda a, /, b=1, *c, d, **e: a\n",
     # a class member spelled like the class's own base / decorator: the header names belong to the enclosing scope
     "shadow": "def deco(c):\n    return c\nclass SBase:\n    x = 1\n@deco\nclass Child(SBase):\n    SBase = None\n    deco = 2\n    def m(self, p: SBase = SBase) -> SBase: ...\n",
+    # member names that are also keys of the serialised form
+    "odd-names": "kind = 1\ncls = 2\nname = 3\nmembers = 4\ndef labels(): ...\nclass docstring:\n    kind = 'x'\n    target_path = 1\n    def parameters(self, kind, name): ...\n",
+    # docstring layouts: leading newline with deeper-indented continuation, indented block after the summary, leading/trailing blanks, tabs
+    "doc-shapes": (
+        'def d1():\n    """\n    Title\n        indented\n    """\n'
+        'def d2():\n    """Title\n\n        code block\n    text\n    """\n'
+        'def d3():\n    """  leading spaces"""\n'
+        'def d4():\n    """Trailing blank lines.\n\n\n    """\n'
+        'def d5():\n    """\tTabbed.\n\t\tmore\n    """\n'
+        'class D6:\n    """\n        Deep\n            deeper\n        back\n    """\n    v = 1\n    """\n    Attr doc\n        more\n    """\n'
+    ),
+    # attribute access on a literal
+    "const-attr": 'ca = "abc".upper\ncb = (1).real\ncc = [1].copy\ndef cf(p="x".join, q=(1.5).hex): ...\n'
+                  # the trailing names are also members of the module: they must not start resolving to those after a reload
+                  'upper = real = copy = tail = 0\ncd = (ca or cb).tail\nce = ca().tail.upper\ncg: (ca[0].real) = [x.copy for x in cc]\n',
     "inherit": "import abc\nclass A(abc.ABC):\n    @abc.abstractmethod\n    def am(self): ...\n    x = 1\nclass B(A):\n    y = 2\n",
 }
 EXECUTABLE = list(FEATURES)
